@@ -1689,7 +1689,7 @@ def simp_add_multiple(_, expr):
             arg = arg.args[0]
             if arg.is_op('<<') and arg.args[1].is_int():
                 base_expr, factor = arg.args
-                operands[base_expr] = operands.get(base_expr, 0) - (2 ** int(factor))
+                operands[base_expr] = operands.get(base_expr, 0) - pow(2, int(factor), 1 << expr.size)
             else:
                 operands[arg] = operands.get(arg, 0) - 1
         else:
